@@ -9,7 +9,7 @@ GO=go
 if ! (cd "$REPO" && $GO version >/dev/null 2>&1); then export GOTOOLCHAIN=local; GO=go1.26.8; fi
 mkdir -p "$ROOT/.build/setup"
 cd "$ROOT/harness"
-cp "$REPO/go.sum" go.sum
+cmp -s "$REPO/go.sum" go.sum || { cp "$REPO/go.sum" go.sum.new && mv -f go.sum.new go.sum; }
 $GO build -o "$ROOT/.build/setup/vcheck" ./cmd/vcheck
 $GO build -tags verif,verifhook -o "$ROOT/.build/setup/vworker" ./cmd/vworker || $GO build -tags verif -o "$ROOT/.build/setup/vworker" ./cmd/vworker || echo "note: vworker does not build (checks fall back to CLI-only monitors)"
 $GO build -race -tags verif,verifhook -o "$ROOT/.build/setup/vworker-race" ./cmd/vworker || true
